@@ -986,6 +986,9 @@ func genNsec3Case(r *vlib.R, emit func(string)) int {
 				q = flipCase(r, q)
 			}
 			t := vlib.Pick(r, qtypes)
+			if nd := z.find(q.fold()); nd != nil && r.Chance(1, 3) {
+				t = vlib.Pick(r, sortedTypes(nd.types)) // a type the name HAS
+			}
 			c := 1
 			if r.Chance(1, 20) {
 				c = vlib.Pick(r, []int{0, 3, 254, 255})
